@@ -193,14 +193,30 @@ def linearise(rng, roots, kids, mode):
     return out
 
 
-def gen_bookmark_case(rng, kind, tier):
+DEPTH_OK = 257      # OUTLINE_DEPTH_LIMIT + 1 (src/outlines.rs): highest forest get_outlines reads back
+
+
+def gen_bookmark_case(rng, kind, tier, deep_n=None):
     big = tier != 'quick'
     npages = rng.choice([1, 1, 2, 3, 5, 8] + ([20, 40] if big else []))
     objects, trailer, max_id, pages, cat, spare, cat_entries = gen_doc(rng, npages, sparse=rng.random() < 0.4)
     n = rng.choice([1, 1, 2, 3, 4, 6, 9, 14] + ([30, 60] if big else []))
     shape = rng.choice(['random', 'random', 'random', 'chain', 'wide', 'flat'])
-    roots, kids = gen_forest(rng, n, shape)
-    titles = distinct_titles(rng, n)
+    if kind == 'deep':
+        # a strict chain plus a few side branches: height deep_n, around the First-nesting limit of get_outlines
+        n = deep_n + rng.randint(0, 3)
+        roots = [0]
+        kids = [[] for _ in range(n)]
+        for k in range(1, deep_n):
+            kids[k - 1].append(k)
+        for k in range(deep_n, n):
+            kids[rng.randrange(deep_n - 1)].append(k)
+        for ks in kids:
+            rng.shuffle(ks)
+        titles = [[0x41 + k % 26, 0x100 + k] for k in range(n)]
+    else:
+        roots, kids = gen_forest(rng, n, shape)
+        titles = distinct_titles(rng, n)
     page_of = [rng.choice(pages) for _ in range(n)]
     adjust = 1
     reload = 1
@@ -291,6 +307,8 @@ def gen_bookmark_case(rng, kind, tier):
                         OID(*p), 'none' if par is None else str(par)) for (t, p, par) in ops])
     exp = L('wf', *[L('row', str(l), T(t), str(pnum[p])) for (l, t, p) in rows]) if wf else L('mal')
     case = L('case', doc, opsx, L('flags', str(adjust), str(reload)), exp)
+    if kind == 'deep':
+        return case, {'kind': 'wf-deep-ok' if deep_n <= DEPTH_OK else 'wf-deep-known', 'nontrivial': True}
     return case, {'kind': ('wf-' if wf else 'mal-') + kind, 'nontrivial': n >= 2}
 
 
@@ -381,10 +399,26 @@ def gen_reader_case(rng, tier):
                 ent.append(('Last', REF(*sub[-1])))
             elif rng.random() < 0.05:
                 ent.append(('First', rng.choice([I(1), REF(nxt[0] + 900, 0), D([('Title', S(b'inline')), ('Dest', dest_obj())])])))
-            objects.append((me, D(ent)))
+            items.append((me, ent, parent))
         return ids
+    items = []
     oid = new_id()
     top = build(0, oid)
+    kind = 'reader'
+    if rng.random() < 0.35:
+        # cyclic links: get_outlines gives up with ReferenceLimit once objects.len() references were followed
+        # (or First nests deeper than OUTLINE_DEPTH_LIMIT) instead of looping
+        kind = 'reader-cyclic'
+        me, ent, par = rng.choice(items)
+        key = rng.choice(['Next', 'Next', 'First'])
+        ent[:] = [e for e in ent if e[0] != key]
+        if key == 'Next':
+            target = rng.choice([me, rng.choice(items)[0], top[0]])
+        else:
+            target = rng.choice([me, par if par != oid else me, top[0]])
+        ent.append((key, REF(*target)))
+    for me, ent, _ in items:
+        objects.append((me, D(ent)))
     oent = [('Type', N('Outlines')), ('First', REF(*top[0])), ('Last', REF(*top[-1]))]
     if rng.random() < 0.1:
         oent = [('Type', N('Outlines'))]
@@ -393,7 +427,7 @@ def gen_reader_case(rng, tier):
     rng.shuffle(objects)
     doc = DOC('1.5', b'', trailer, objects, nxt[0])
     case = L('case', doc, L('ops'), L('flags', '1', '1'), L('mal'))
-    return case, {'kind': 'reader', 'nontrivial': True}
+    return case, {'kind': kind, 'nontrivial': True}
 
 
 def gen_cases(rng, tier):
@@ -406,6 +440,9 @@ def gen_cases(rng, tier):
             cases.append(gen_reader_case(rng, tier))
         else:
             cases.append(gen_bookmark_case(rng, rng.choice(kinds), tier))
+    # forests around the First-nesting limit of get_outlines: height 257 reads back, 258 and more do not (known finding)
+    for deep_n in [DEPTH_OK - 1, DEPTH_OK, DEPTH_OK + 1, DEPTH_OK + 1 + rng.randint(1, 60)] + ([400, 1000] if tier != 'quick' else []):
+        cases.append(gen_bookmark_case(rng, 'deep', tier, deep_n=deep_n))
     # no bookmark at all
     objects, trailer, max_id, pages, cat, spare, _ = gen_doc(rng, 2)
     cases.append((L('case', DOC('1.5', b'', trailer, objects, max_id), L('ops'), L('flags', '1', '1'), L('mal')),
@@ -413,8 +450,36 @@ def gen_cases(rng, tier):
     return cases
 
 
+import re
+_ADD = re.compile(r'\(add \(t[^)]*\) \d+ \(c [^)]*\) \(\d+ \d+\) (none|\d+)\)')
+
+
+def forest_height(line):
+    """height of the forest the ops of a case line denote (orphans and their descendants hang nowhere)"""
+    depth = {}
+    h = 0
+    for k, m in enumerate(_ADD.finditer(line), start=1):
+        par = m.group(1)
+        if par == 'none':
+            depth[k] = 1
+        else:
+            p = int(par)
+            if 1 <= p < k and p in depth:
+                depth[k] = depth[p] + 1
+        h = max(h, depth.get(k, 0))
+    return h
+
+
+def classify(line, tags, model_out, impl_out, verdict):
+    # decided on the input alone: too_deep in coq/Proofs/OutlineProofsProps.v
+    if forest_height(line) > DEPTH_OK:
+        return 'C17-deep-outline'
+    return None
+
+
 SPEC = {
-    'gen_parts': ['Consts'],
+    'classify': classify,
+    'gen_parts': ['Consts', 'QueryC'],
     'allowed_axioms': (),
     'runner': 'c17',
     'bin': 'c17',
